@@ -14,13 +14,13 @@ MANIFEST = {
              'index_auto.py, index_hierarchy.py (from_labels) and index_level.py (from_level_data, leaf_loc_to_iloc, __contains__): '
              'C02_index_refines / C02_index_accepts_iff / C02_index_bijection (Index(labels) observed through values, iteration, reversed, len, '
              'positions, iloc, loc_to_iloc and `in` IS the label list; accepted iff labels pairwise distinct, else ErrorInitIndex; lookup of the '
-             'i-th label is i and conversely) for every label list and probe list; C02_auto_bijection / C02_auto_refines (map-less auto-integer index, '
-             'under the explicit guard auto_key_ok); C02_go_history / C02_go_labels_laws / C02_go_observe (IndexGO incl. the auto-integer one: after ANY '
-             'history of append/extend/reader calls inside the guard go_dom the state is a bijection holding the initial labels followed by the accepted '
-             'values, outcome by outcome); C02_hier_refines / C02_hier_bijection (IndexHierarchy.from_labels: dict-tree walk with the shared '
+             'i-th label is i and conversely) for every label list and probe list; C02_index_dtype_refines; C02_auto_bijection / C02_auto_refines (map-less '
+             'auto-integer index; the guard auto_key_ok only excludes a non-integer-typed key equal to a held position, finding C02-auto-float-key); '
+             'C02_go_history / C02_go_labels_laws / C02_go_observe (IndexGO incl. the auto-integer one: after ANY history of append/extend/reader calls, '
+             'unguarded since fixes feb832d/41fcfc5, the state is a bijection holding the initial labels followed by the accepted values, outcome by outcome); C02_hier_refines / C02_hier_bijection (IndexHierarchy.from_labels: dict-tree walk with the shared '
              'observed_last list, levels with relative offsets, leaf_loc_to_iloc: accepted iff one depth >= 2, distinct and tree-ordered; then the '
              'table in the given order with exact lookups); C02_derive_select/drop/roll (label computations of the derivations keep an index an index). '
-             'Refuted/C02_*.v: 5 concrete witnesses (one file per finding) where the faithful model (= the unchanged code) leaves the property (known/C02.jsonl). '
+             'Refuted/C02_*.v: 2 concrete witnesses (one file per unrepaired finding) where the faithful model (= the unchanged code) leaves the property (known/C02.jsonl). '
              'Gen/Gen_c02.v: error classes and statement-order facts re-read from the AST of /repo on every run and used by M. '
              'API-level correspondence of M and of S with the implementation: every public construction route x label kinds, exhaustive small label '
              'sequences / append histories, derivations (selection, drop, roll, relabel, sort, set operations, astype, copy/pickle, level_add/flat/'
@@ -37,8 +37,7 @@ MANIFEST = {
     'technique': 'refinement proofs M = S (flat, grow-only histories, hierarchical construction) + differential correspondence + regenerated constants',
 }
 PROPERTY_FILES = ['Properties/C02.v']
-REFUTED_FILES = ['Refuted/C02_unvalidated_key.v', 'Refuted/C02_float_key.v', 'Refuted/C02_float_append.v',
-                 'Refuted/C02_stale_positions.v', 'Refuted/C02_dtype_map.v']
+REFUTED_FILES = ['Refuted/C02_float_key.v', 'Refuted/C02_dtype_map.v']
 MODEL_FILES = ['Gen/Gen_c02.v', 'SF/IndexBij.v', 'SF/IndexBijVal.v', 'SF/IxTree.v', 'SF/IxTreeVal.v']
 IMPORTS = 'Require Import SF.Prelude SF.Dtype SF.Value SF.PySlice SF.IndexBij SF.IndexBijVal SF.IxTree SF.IxTreeVal.'
 RULE = ('every case builds an index through the public interface and observes it COMPLETELY (values, iteration, reversed, len, positions, iloc[i], '
@@ -56,6 +55,7 @@ ASSUMPTIONS = ['automap.FrozenAutoMap/AutoMap: insertion-ordered hash map label 
 TRUSTED = ['tools/sfv/props/c02.py:generate (AST extractor of Gen/Gen_c02.v, fail closed)']
 EXHAUSTIVE = {'quick': False, 'thorough': False}
 TRANSLATED = []
+GENERATED_FILES = ['Gen/Gen_c02.v']
 
 
 # ----------------------------------------------------------------------------- generated constants
@@ -133,22 +133,35 @@ def generate(repo):
     if not (isinstance(first, ast.If) and isinstance(first.test, ast.Call) and is_self_attr(first.test.func, '__contains__')):
         raise ValueError('_IndexGOMixin.append no longer starts with the __contains__ test')
     append_err = enum_of(raised_class(first.body[0]))
-    i_push = i_map = None
-    map_arg_is_mutable = None
-    for i, st in enumerate(stmts):
-        if (isinstance(st, ast.Expr) and isinstance(st.value, ast.Call) and isinstance(st.value.func, ast.Attribute)
-                and st.value.func.attr == 'append' and is_self_attr(st.value.func.value, '_labels_mutable')):
-            i_push = i
-        if isinstance(st, ast.If) and isinstance(st.test, ast.Name) and st.test.id == 'initialize_map':
-            for b in ast.walk(st):
-                if isinstance(b, ast.Call) and isinstance(b.func, ast.Name) and b.func.id == 'AutoMap':
-                    i_map = i
-                    map_arg_is_mutable = len(b.args) == 1 and is_self_attr(b.args[0], '_labels_mutable')
-    if i_push is None or i_map is None:
-        raise ValueError('_IndexGOMixin.append: push / AutoMap promotion statements not found')
-    push_before_map = i_push < i_map
-    if push_before_map and not map_arg_is_mutable:
-        raise ValueError('_IndexGOMixin.append: unexpected AutoMap argument')
+    # where (in source order) is the promotion map AutoMap(...) constructed relative to the push onto _labels_mutable,
+    # and which class does a failing construction surface as ?
+    push_line = None
+    for n in ast.walk(app):
+        if (isinstance(n, ast.Call) and isinstance(n.func, ast.Attribute) and n.func.attr == 'append'
+                and is_self_attr(n.func.value, '_labels_mutable')):
+            if push_line is not None:
+                raise ValueError('_IndexGOMixin.append: more than one push onto _labels_mutable')
+            push_line = n.lineno
+    map_calls = [n for n in ast.walk(app) if isinstance(n, ast.Call) and isinstance(n.func, ast.Name) and n.func.id == 'AutoMap']
+    if push_line is None or len(map_calls) != 1:
+        raise ValueError('_IndexGOMixin.append: push / single AutoMap promotion not found')
+    mc = map_calls[0]
+    if not any(is_self_attr(x, '_labels_mutable') for a in mc.args for x in ast.walk(a)):
+        raise ValueError('_IndexGOMixin.append: the promotion map is no longer built from _labels_mutable')
+    push_before_map = push_line < mc.lineno
+    if push_before_map and not (len(mc.args) == 1 and is_self_attr(mc.args[0], '_labels_mutable')):
+        raise ValueError('_IndexGOMixin.append: unexpected AutoMap argument after the push')
+    if not push_before_map:
+        # the map must be built from the labels PLUS the new value
+        if not any(isinstance(x, ast.Name) and x.id == 'value' for a in mc.args for x in ast.walk(a)):
+            raise ValueError('_IndexGOMixin.append: the early promotion map does not include the new value')
+    promote_err = 'ValueError'
+    for n in ast.walk(app):
+        if isinstance(n, ast.Try) and any(x is mc for b in n.body for x in ast.walk(b)):
+            hs = [h for h in n.handlers if isinstance(h.type, ast.Name) and h.type.id == 'ValueError']
+            if len(hs) != 1:
+                raise ValueError('_IndexGOMixin.append: unexpected handlers around the promotion map')
+            promote_err = enum_of(raised_class(hs[0].body[0]))
     # (3b) Index.loc_to_iloc on a map-less index: does it refresh the caches before reading self._positions ?
     l2i = find_func(find_class(index_mod, 'Index'), 'loc_to_iloc')
     l2i_stmts = [s for s in l2i.body if not (isinstance(s, ast.Expr) and isinstance(s.value, ast.Constant))]
@@ -199,6 +212,8 @@ def generate(repo):
             f'Definition gen_append_dup_error : string := {lit.s(append_err)}.\n'
             '(* IndexGO.append pushes the value onto _labels_mutable BEFORE AutoMap(self._labels_mutable) is built on promotion *)\n'
             f'Definition gen_go_push_before_map : bool := {b(push_before_map)}.\n'
+            '(* error class surfaced when that construction finds a duplicate *)\n'
+            f'Definition gen_go_promote_error : string := {lit.s(promote_err)}.\n'
             '(* Index.loc_to_iloc refreshes stale caches before reading self._positions on a map-less index *)\n'
             f'Definition gen_loc_to_iloc_recaches : bool := {b(loc_to_iloc_recaches)}.\n'
             '(* Index.loc_to_iloc on a map-less index validates an element key against [0, len) before returning it *)\n'
@@ -454,19 +469,15 @@ def is_int_typed(v):
 
 
 def auto_probe_class(n, k):
-    '''Class of a probe key on an auto-integer index of n labels, decided from the INPUT only.'''
-    if k is None:
-        return 'unvalidated'
-    if isinstance(k, (bool, np.bool_)):
-        return 'ok' if int(k) < n else 'unvalidated'
-    if isinstance(k, (int, np.integer)):
-        return 'unvalidated' if -n <= k < 0 else 'ok'
-    if isinstance(k, (float, np.floating)) and float(k).is_integer() and 0 <= k < n:
+    '''Class of a probe key on an auto-integer index of n labels, decided from the INPUT only.  Negative ints, out-of-range
+    bools and None (repaired finding C02-auto-unvalidated-key, fix 041ca90) are ordinary probes now: regression inputs
+    whose specification is the correct behaviour (KeyError / not contained).'''
+    if isinstance(k, (float, np.floating)) and not isinstance(k, (bool, np.bool_)) and float(k).is_integer() and 0 <= k < n:
         return 'float-key'
     return 'ok'
 
 
-FINDING_AUTO = {'unvalidated': 'C02-auto-unvalidated-key', 'float-key': 'C02-auto-float-key'}
+FINDING_AUTO = {'float-key': 'C02-auto-float-key'}
 
 
 def auto_cases(ctx):
@@ -552,19 +563,14 @@ def obs_lit_cold(ix, probes):
 
 
 def classify_history(init, ops):
-    '''Simulate the SPECIFICATION on the input to decide (from the input alone) whether the history enters the class of
-    finding C02-autogo-float-append, and whether the index is still map-less (auto) at the end.'''
+    '''Simulate the SPECIFICATION on the input: is the index still map-less (auto) at the end, and which labels does it hold.'''
     kind, arg = init
     labels = list(arg) if kind == 'labels' else list(range(arg))
     auto = kind == 'auto'
-    float_append = False
 
     def push(v):
-        nonlocal auto, float_append
-        held = any(v == x for x in labels)
-        if auto and held and not is_int_typed(v):
-            float_append = True
-        if held:
+        nonlocal auto
+        if any(v == x for x in labels):
             return False
         if auto and not (is_int_typed(v) and v == len(labels)):
             auto = False
@@ -577,7 +583,7 @@ def classify_history(init, ops):
             for v in o[1]:
                 if not push(v):
                     break
-    return float_append, auto, labels
+    return auto, labels
 
 
 def go_probes(rng, labels_end, extra):
@@ -587,16 +593,17 @@ def go_probes(rng, labels_end, extra):
 
 
 def history_case(ctx, init, ops, stratum, touch_pick=None):
+    '''One history, observed twice: "warm" (a reader is called after the last mutation) and "cold" (loc_to_iloc / `in` are
+    the first calls after the last mutation: the regression input of the repaired finding C02-autogo-stale-positions).
+    Histories with a float alias of a held position (1.0 on an auto-integer [0,1]: repaired finding C02-autogo-float-append)
+    are ordinary inputs: the append must be refused and leave the index unchanged.'''
     touch_pick = touch_pick or [0] * (len(ops) + 1)
-    float_append, auto_end, labels_end = classify_history(init, ops)
+    auto_end, labels_end = classify_history(init, ops)
     n_end = len(labels_end)
-    extra = [n_end, n_end + 1, 'zz', 0.5] if auto_end else [-1, n_end, 'zz', 0.5, None, (9, 9)]
+    extra = [n_end, n_end + 1, -1, None, True, 'zz', 0.5] if auto_end else [-1, n_end, 'zz', 0.5, None, (9, 9)]
     probes = [k for k in go_probes(ctx.rng, labels_end, extra) if not auto_end or auto_probe_class(n_end, k) == 'ok']
     tags = {'init': init[0]}
-    if float_append:
-        tags['finding'] = 'C02-autogo-float-append'
     out = []
-    # warm: a reader is called after the history, then everything is observed
     ops_w = list(ops) + [('touch',)]
     ix, outs = run_history(ctx, init, ops_w, touch_pick)
     obs = reading(obs_lit_cold, ix, probes)
@@ -604,16 +611,12 @@ def history_case(ctx, init, ops, stratum, touch_pick=None):
     ctx.count(f'go:init={init[0]}', f'go:len={min(len(ops), 9)}', 'go:auto-at-end' if auto_end else 'go:mapped-at-end')
     out.append(Case(stratum, {'init': repr(init), 'ops': repr(ops_w), 'probes': repr(probes), 'outcomes': outs, 'observed': obs[:400]},
                     m=f'chk_M_go {I} {O} {P} {R} {obs}', s=f'chk_S_go {I} {O} {P} {R} {obs}', tags=dict(tags), nontrivial=len(ops) >= 1))
-    # cold: no reader after the last mutation (only distinct from warm when the history does not end in a reader)
     if ops and ops[-1][0] != 'touch':
         ix, outs = run_history(ctx, init, ops, touch_pick)
         obs = reading(obs_lit_cold, ix, probes)
         O, R = lit.lst([op_lit(o) for o in ops]), lit.lst(outs)
-        tags_c = dict(tags, cold=True)
-        if auto_end and not float_append:
-            tags_c['finding'] = 'C02-autogo-stale-positions'
         out.append(Case(stratum + '-cold', {'init': repr(init), 'ops': repr(ops), 'probes': repr(probes), 'outcomes': outs, 'observed': obs[:400]},
-                        m=f'chk_M_go {I} {O} {P} {R} {obs}', s=f'chk_S_go {I} {O} {P} {R} {obs}', tags=tags_c, nontrivial=True))
+                        m=f'chk_M_go {I} {O} {P} {R} {obs}', s=f'chk_S_go {I} {O} {P} {R} {obs}', tags=dict(tags, cold=True), nontrivial=True))
     return out
 
 
